@@ -8,8 +8,13 @@ CONSTANTS
   Sp0 = 2
   Methods = {"PIT", "SN", "MPS"}
   Twos = {"no", "cat"}
+  ConvVars = {"dflt"}
+  BnVars = {"dflt"}
+  SnoVars = {1}
   AllowPl = TRUE
   AllowExcl = TRUE
   AllowReuse = TRUE
+  AllowLin3 = FALSE
+  AllowDrop = FALSE
   AllowFindings = TRUE
-
+  MaxHist = 0
